@@ -22,11 +22,11 @@ P start <w> <c> <id> <slot> | P recv <c> <id> <tag> | P closeswap <c> <id> | P s
 P cancel <w> | P writefail <w> | P close <c> | P leave <w> | P alloc <next> <used ids>
     -> see handleP
 
-C reset <check 0|1> <client>*                    client = id:name:spell:qtype:scope:route(f|r)
+C reset <check 0|1> <client>*                    client = id:name:spell:qtype:scope:route(f|r)[:class]
 C arrive <i> | C join <i> | C refuse <i> | C wake <i> | C evict <name> <qtype> <scope>
 C respell <name> <qtype> <scope> <spell>         the packed entry is re-packed with another spelling of its name
 C refresh <i> <scheme> <att> <att> <ev 0|1>     background refresh (optimistic cache) for client i's question
-C resolve <f> <udp|tcp|tcpudp> <att> <att>       att = fail | m:<id>:<q>:<resp>:<rcode>:<tc>:<ans>[:<ttl0>], q = - | name.spell.qtype
+C resolve <f> <udp|tcp|tcpudp> <att> <att>       att = fail | m:<id>:<q>:<resp>:<rcode>:<tc>:<ans>[:<ttl0>], q = - | name.spell.qtype[.class]
     -> pc=<pc of the client concerned> out=<outcome emitted by this step or -> calls=<n> cache=<entries>
 ```
 -/
@@ -137,14 +137,19 @@ def handleU (d : DSt) : List String → DSt × String
 def parseQ (tok : String) : Option (Option Ctl.Question) :=
   if tok == "-" then some none else
   match tok.splitOn "." with
-  | [n, s, t] => do let n ← n.toNat?; let s ← s.toNat?; let t ← t.toNat?; pure (some ⟨n, s, t⟩)
+  | [n, s, t] => do let n ← n.toNat?; let s ← s.toNat?; let t ← t.toNat?; pure (some ⟨n, s, t, 1⟩)
+  | [n, s, t, c] => do
+    let n ← n.toNat?; let s ← s.toNat?; let t ← t.toNat?; let c ← c.toNat?; pure (some ⟨n, s, t, c⟩)
   | _ => none
 
 def parseClient (tok : String) : Option Ctl.Client :=
   match tok.splitOn ":" with
   | [id, n, sp, t, sc, r] => do
     let id ← id.toNat?; let n ← n.toNat?; let sp ← sp.toNat?; let t ← t.toNat?; let sc ← sc.toNat?
-    pure ⟨id, ⟨n, sp, t⟩, sc, if r == "r" then .reject else .forward⟩
+    pure ⟨id, ⟨n, sp, t, 1⟩, sc, if r == "r" then .reject else .forward⟩
+  | [id, n, sp, t, sc, r, cl] => do
+    let id ← id.toNat?; let n ← n.toNat?; let sp ← sp.toNat?; let t ← t.toNat?; let sc ← sc.toNat?; let cl ← cl.toNat?
+    pure ⟨id, ⟨n, sp, t, cl⟩, sc, if r == "r" then .reject else .forward⟩
   | _ => none
 
 def parseAtt (tok : String) : Option Ctl.Att :=
@@ -163,7 +168,7 @@ def parseScheme : String → Option Ctl.Scheme
 
 def qStr : Option Ctl.Question → String
   | none => "-"
-  | some q => s!"{q.name}.{q.spell}.{q.qtype}"
+  | some q => if q.qclass == 1 then s!"{q.name}.{q.spell}.{q.qtype}" else s!"{q.name}.{q.spell}.{q.qtype}.{q.qclass}"
 
 def srcStr : Ctl.Src → String
   | .own => "own" | .cache => "cache" | .upstream => "up"
@@ -229,12 +234,12 @@ def handleC (d : DSt) : List String → DSt × String
   | ["evict", n, t, sc] =>
     match n.toNat?, t.toNat?, sc.toNat? with
     | some n, some t, some sc =>
-      let c := Ctl.step d.ccfg d.c (.evict ⟨n, t, sc⟩); ({ d with c := c }, cOut d.c c 1000000)
+      let c := Ctl.step d.ccfg d.c (.evict ⟨n, t, 1, sc⟩); ({ d with c := c }, cOut d.c c 1000000)
     | _, _, _ => (d, "bad-op")
   | ["respell", n, t, sc, sp] =>
     match n.toNat?, t.toNat?, sc.toNat?, sp.toNat? with
     | some n, some t, some sc, some sp =>
-      let c := Ctl.step d.ccfg d.c (.respell ⟨n, t, sc⟩ sp); ({ d with c := c }, cOut d.c c 1000000)
+      let c := Ctl.step d.ccfg d.c (.respell ⟨n, t, 1, sc⟩ sp); ({ d with c := c }, cOut d.c c 1000000)
     | _, _, _, _ => (d, "bad-op")
   | ["resolve", f, sch, a1, a2] =>
     match f.toNat?, parseScheme sch, parseAtt a1, parseAtt a2 with
